@@ -218,6 +218,9 @@ def _dumps_kvn(data, **kwargs):
         data, meta_tag=False, extras={"MEAN_ELEMENT_THEORY": theory}, **kwargs
     )
 
+    # Only the orbits created by Tle.orbit() carry the original Tle object
+    tle = getattr(data, "tle", None)
+
     text = """
 EPOCH                = {tle.date:{dfmt}}
 MEAN_MOTION          = {n: 12.8f} [rev/day]
@@ -228,11 +231,11 @@ ARG_OF_PERICENTER    = {omega:8.4f} [deg]
 MEAN_ANOMALY         = {M:8.4f} [deg]
 GM                   = {mu:0.1f} [km**3/s**2]
 
-EPHEMERIS_TYPE       = {tle.tle.type}
-CLASSIFICATION_TYPE  = {tle.tle.classification:}
-NORAD_CAT_ID         = {tle.tle.norad_id}
-ELEMENT_SET_NO       = {tle.tle.element_nb}
-REV_AT_EPOCH         = {tle.tle.revolutions}
+EPHEMERIS_TYPE       = {ephemeris_type}
+CLASSIFICATION_TYPE  = {classification}
+NORAD_CAT_ID         = {tle.norad_id}
+ELEMENT_SET_NO       = {tle.element_nb}
+REV_AT_EPOCH         = {tle.revolutions}
 BSTAR                = {bstar:6.9f} [1/ER]
 MEAN_MOTION_DOT      = {ndot: 10.8f} [rev/day**2]
 MEAN_MOTION_DDOT     = {ndotdot:0.1f} [rev/day**3]
@@ -243,6 +246,10 @@ MEAN_MOTION_DDOT     = {ndotdot:0.1f} [rev/day**3]
         omega=code_unit(data, "omega", "deg"),
         M=code_unit(data, "M", "deg"),
         tle=data,
+        ephemeris_type=tle.type if tle else getattr(data, "ephemeris_type", 0),
+        classification=tle.classification
+        if tle
+        else getattr(data, "classification_type", "U"),
         bstar=code_unit(data, "bstar", "1/ER"),
         ndot=code_unit(data, "ndot", "rev/day**2") / 2,
         ndotdot=code_unit(data, "ndotdot", "rev/day**3") / 6,
